@@ -1,13 +1,13 @@
 SPECIFICATION Spec
 CONSTANTS
   Mode = "bfs"
-  Fams = {"prop"}
+  Fams = {"kw", "prop"}
   MaxLen = 2
   Mix = 2
-  Bases = {"bare"}
-  DeepBases = {"bare"}
+  Bases = {"xmpkw"}
+  DeepBases = {}
   ShallowBases = {}
-  DeepFams = {"kw", "prop", "att"}
-  Std = TRUE
+  DeepFams = {}
+  Std = FALSE
   Emit = TRUE
 INVARIANTS TypeOK Isolated EmitCase
